@@ -600,6 +600,7 @@ func c14R6(c *Ctx) {
 	c14R8(c)
 	c14R9(c)
 	c14R10(c)
+	c14R11(c)
 	c14R6As(c, c.R.Rule("R6", "K6 name index follows renames: pipeline.Service.Update frees the OLD name (read before the config is replaced) and reserves the new one", 2))
 }
 
@@ -737,13 +738,13 @@ func livePersisted(c *Ctx, r string) {
 // the service's Create / Add… again; that builds a NEW instance and APPENDS the id. The rollback closure therefore
 // has to put back what Create's parameters do not carry (a connector's position!) and the parent's id list as it was.
 func c14R8(c *Ctx) {
-	r := c.R.Rule("R8", "K8/K6 a rolled-back delete restores the deleted instance: in the Delete methods' rollback closures every exported instance field that the re-creating Create call does not take as a parameter is assigned from the deleted instance (connector: State, LastActiveConfig, CreatedAt, UpdatedAt; processor: CreatedAt, UpdatedAt), and after the re-adding Add… call the parent's id list is assigned a copy taken before the Remove… call (the id gets its old place back)", 11)
+	r := c.R.Rule("R8", "K8/K6 a rolled-back delete restores the deleted instance: in the Delete methods' rollback closures every exported instance field that the re-creating Create call does not take as a parameter is assigned from the deleted instance (connector: State, LastActiveConfig, CreatedAt, UpdatedAt; processor: Config — Create normalises it —, CreatedAt, UpdatedAt), and after the re-adding Add… call the parent's id list is assigned a copy taken before the Remove… call (the id gets its old place back)", 12)
 	for _, t := range []struct {
 		orch, svc, rel string
 		covered        map[string]string // instance field → why the rollback does not have to assign it
 	}{
 		{"ConnectorOrchestrator", "connectors", pConn, map[string]string{"ID": "Create parameter", "Type": "Create parameter", "Plugin": "Create parameter", "PipelineID": "Create parameter", "Config": "Create parameter", "ProvisionedBy": "Create parameter", "ProcessorIDs": "Delete refuses a connector that still has processors attached (len(conn.ProcessorIDs) != 0), so the list is empty"}},
-		{"ProcessorOrchestrator", "processors", pProc, map[string]string{"ID": "Create parameter", "Plugin": "Create parameter", "Parent": "Create parameter", "Config": "Create parameter", "ProvisionedBy": "Create parameter", "Condition": "Create parameter"}},
+		{"ProcessorOrchestrator", "processors", pProc, map[string]string{"ID": "Create parameter", "Plugin": "Create parameter", "Parent": "Create parameter", "ProvisionedBy": "Create parameter", "Condition": "Create parameter"}}, // Config is a Create parameter too, but Create normalises it (Workers 0 → 1): it has to be put back as it was (F55)
 	} {
 		fn := c.SSA(r, pOrch, "(*"+t.orch+").Delete")
 		inst := c.W.LookupType(t.rel, "Instance")
@@ -911,6 +912,64 @@ func c14R10(c *Ctx) {
 			}
 		}
 		c.R.Check(notified, r, "connector.Service."+m+": the persister's pending snapshot is replaced/dropped", c.Pos(fn.Pos()), "persister notified", "connector.Service."+m+" writes (or deletes) the connector in the store without touching the persister: a snapshot of the same connector queued by an earlier Persist (e.g. Source.Open's lifecycle event followed by a failed plugin Open — nothing flushes it) is written up to a second later and overwrites the API change, or resurrects the deleted connector as an orphan, in the store; the restarted server loads the stale state", true)
+	}
+}
+
+// c14R11: F55/F56. The rollback of a Delete re-creates the entity through Create. Whatever Update lets into the store
+// must therefore be something Create accepts, or a later failed delete cannot be rolled back (rollback.MustExecute
+// panics, the entity is gone from memory while store and pipeline still reference it).
+func c14R11(c *Ctx) {
+	r := c.R.Rule("R11", "K3 Update refuses what Create refuses: connector.Service.Update persists only behind validateConnector[ok] and the plugin != \"\" edge; processor.Service.updateConfig persists only behind the Workers >= 0 edge", 3)
+	if fn := c.SSA(r, pConn, "(*Service).Update"); fn != nil {
+		set := c.Fn(r, pConn, "(*Store).Set")
+		val := c.Fn(r, pConn, "(*Service).validateConnector")
+		sets := asInstrs(kit.CallsTo(fn, Set(set)))
+		c.R.Check(len(sets) >= 1, r, "connector.Service.Update: persists", c.Pos(fn.Pos()), "store.Set", "no store.Set in connector.Service.Update", true)
+		c.Dominated(r, "connector.Service.Update: persists only a configuration Create would accept", sets, okGates(kit.CallsToOK(fn, Set(val), 2), "validateConnector ok"), "the validateConnector success edge")
+		var plug ssa.Value
+		for _, prm := range fn.Params {
+			if prm.Name() == "plugin" {
+				plug = prm
+			}
+		}
+		gp := kit.NewGates().AddEdges(kit.CmpEdges(fn, func(b *ssa.BinOp) (bool, bool) {
+			if plug != nil && ((kit.IsVar(b.X, plug) && isStrConst(b.Y, "")) || (kit.IsVar(b.Y, plug) && isStrConst(b.X, ""))) {
+				switch b.Op {
+				case token.NEQ:
+					return true, true
+				case token.EQL:
+					return true, false
+				}
+			}
+			return false, false
+		}), "plugin != \"\"")
+		c.Dominated(r, "connector.Service.Update: persists only a non-empty plugin", sets, gp, "the plugin != \"\" edge")
+	}
+	if fn := c.SSA(r, pProc, "(*Service).updateConfig"); fn != nil {
+		set := c.Fn(r, pProc, "(*Store).Set")
+		wF := c.Field(r, pProc, "Config", "Workers")
+		sets := asInstrs(kit.CallsTo(fn, Set(set)))
+		isW := func(v ssa.Value) bool { return kit.IsFieldLoad(v, wF) || fieldNamed(v, "Workers") }
+		g := kit.NewGates().AddEdges(kit.CmpEdges(fn, func(b *ssa.BinOp) (bool, bool) {
+			switch {
+			case isW(b.X) && kit.IsIntConst(b.Y, 0):
+				switch b.Op {
+				case token.LSS:
+					return true, false
+				case token.GEQ:
+					return true, true
+				}
+			case isW(b.Y) && kit.IsIntConst(b.X, 0):
+				switch b.Op {
+				case token.GTR:
+					return true, false
+				case token.LEQ:
+					return true, true
+				}
+			}
+			return false, false
+		}), "Workers >= 0")
+		c.Dominated(r, "processor.Service.updateConfig: persists only a non-negative worker count", sets, g, "the cfg.Workers >= 0 edge")
 	}
 }
 
